@@ -2,6 +2,7 @@ import Bgpfu.Drive.Framing
 import Bgpfu.Drive.Xml
 import Bgpfu.Drive.Daemon
 import Bgpfu.Drive.Writers
+import Bgpfu.Drive.Policy
 /-! `modeld`: one request per line on stdin, one answer per line on stdout.
 A line is `<op> <arg>…` separated by single spaces; unknown ops / malformed args answer `bad-op`. -/
 
@@ -12,6 +13,7 @@ def dispatch (ws : List String) : String :=
     | "xml" :: rest => Xml.drive rest
     | "daemon" :: rest => Daemon.drive rest
     | "ser" :: rest => Writers.drive rest
+    | "plan" :: rest => Policy.drive rest
     | _ => none
   r.getD "bad-op"
 
